@@ -581,6 +581,21 @@ def targeted_outer_join_family():
     return out
 
 
+def targeted_literal_family():
+    """relation literals whose rows spell their fields in different orders (a tuple's fields are named, not positional), alone and under
+    the transforms that read columns by name"""
+    out = []
+    two = [{"a": 1, "b": 2}, {"b": 3, "a": 4}]
+    three = [{"a": 1, "b": 2, "c": 3}, {"c": 0, "a": 4, "b": -1}, {"b": 5, "c": 7, "a": -2}]
+    out.append(("lit-perm:2", Prog([FromLit(two)])))
+    out.append(("lit-perm:3", Prog([FromLit(three)])))
+    out.append(("lit-perm:3>select", Prog([FromLit(three), Select("b", "a")])))
+    out.append(("lit-perm:3>filter", Prog([FromLit(three), Filter(C("a") > 0), Select("c")])))
+    out.append(("lit-perm:2>join", Prog([FromLit(two), Join("u", "==a"), Select("b", "u.b")])))
+    out.append(("lit-perm:3>agg", Prog([FromLit(three), Aggregate(s=Fn("sum", C("b")))])))
+    return out
+
+
 def family_c01(tier, seed):
     """quick: all pipelines of <=2 templates on both heads + a seed-rotated slice of length 3;
     thorough: all of length <=3 on the explicit-column head, <=2 on the wildcard head, plus a slice of length 4"""
@@ -597,7 +612,7 @@ def family_c01(tier, seed):
         rr.shuffle(l2)
         rr.shuffle(l3)
         l2, l3 = l2[:300], l3[:150]
-    out += l2 + l3 + targeted_let_family() + targeted_distinct_family() + targeted_group_take_family() + targeted_takes_family() + targeted_setop_family() + targeted_shadow_family() + targeted_append_family() + targeted_outer_join_family()
+    out += l2 + l3 + targeted_let_family() + targeted_distinct_family() + targeted_group_take_family() + targeted_takes_family() + targeted_setop_family() + targeted_shadow_family() + targeted_append_family() + targeted_outer_join_family() + targeted_literal_family()
     out += list(enumerate_family(1 if tier == "quick" else 2, heads=("lit",)))
     out += list(enumerate_family(1 if tier == "quick" else 2, heads=("alias", "alias_wild")))
     if tier == "quick":
